@@ -1317,6 +1317,16 @@ impl DhtCoreEngine {
         self.close_group_validator.clone()
     }
 
+    /// Extract the IP from a node address as rendered by this library: "ip:port", a bare "ip",
+    /// or `NetworkAddress`'s `Display` form "ip:port (four-words)".
+    fn parse_node_ip(address: &str) -> Option<IpAddr> {
+        let clean = address.split(" (").next().unwrap_or(address);
+        match clean.parse::<SocketAddr>() {
+            Ok(socket) => Some(socket.ip()),
+            Err(_) => clean.parse::<IpAddr>().ok(),
+        }
+    }
+
     /// Add a node to the DHT with security checks
     pub async fn add_node(&mut self, node: NodeInfo) -> Result<()> {
         // 1. Security Check: Close Group Validator
@@ -1333,11 +1343,7 @@ impl DhtCoreEngine {
         {
             // Parse IP address from node.address string
             // address comes as "ip:port" or just "ip"
-            let ip_addr: Option<IpAddr> = if let Ok(socket) = node.address.parse::<SocketAddr>() {
-                Some(socket.ip())
-            } else {
-                node.address.parse::<IpAddr>().ok()
-            };
+            let ip_addr: Option<IpAddr> = Self::parse_node_ip(&node.address);
 
             if let Some(ip) = ip_addr {
                 let mut enforcer = self.ip_diversity_enforcer.write().await;
@@ -1369,11 +1375,7 @@ impl DhtCoreEngine {
         // 3. Security Check: Geographic Diversity
         {
             // Parse IP address from node.address string (reuse parsed IP from above)
-            let ip_addr: Option<IpAddr> = if let Ok(socket) = node.address.parse::<SocketAddr>() {
-                Some(socket.ip())
-            } else {
-                node.address.parse::<IpAddr>().ok()
-            };
+            let ip_addr: Option<IpAddr> = Self::parse_node_ip(&node.address);
 
             if let Some(ip) = ip_addr {
                 let region = GeographicRegion::from_ip(ip);
